@@ -55,7 +55,136 @@ const (
 
 var alphabet = []string{opAdd0, opAdd1, opWrongPre, opNoParent, opDup, opRm, opRm2, opRestart,
 	opIdH0, opIdHLast, opIdHNext, opIdHNext1, opIdKLast, opIdKCount, opIdGen, opIdEmpty, opId1Byte,
-	opAdd0GhCount, opAdd0GhPrev, opAdd0GhNext, opAdd0GhBig, opAdd1GhNext, opAdd1GhOne, opAdd0WorkDismiss}
+	opAdd0GhCount, opAdd0GhPrev, opAdd0GhNext, opAdd0GhBig, opAdd1GhNext, opAdd1GhOne, opAdd0WorkDismiss,
+	// fork switch, plain branches (explored in every state)
+	"sw1:add1", "sw2:add0", "sw2:add1+add0",
+	// fork switch whose first branch group comes from the refused / ID / field dimensions
+	"sw1:dup", "sw1:id-genesis", "sw1:id-h0", "sw1:id-hnext", "sw1:id-hnext1", "sw1:id-klast", "sw1:id-kcount", "sw1:id-empty", "sw1:id-1byte",
+	"sw1:add0", "sw1:add0+add1", "sw1:wrongpre", "sw1:noparent", "sw1:add0.workdismiss", "sw1:add1+id-hnext", "sw1:add0+dup",
+	"sw2:dup", "sw2:id-genesis", "sw2:id-h0", "sw2:id-hnext", "sw2:id-klast", "sw2:id-kcount", "sw2:id-empty", "sw2:noparent", "sw2:add0+id-genesis"}
+
+// Fork switch: "sw<d>:<b1>[+<b2>]" = the production groupChainFork.triggerOnChain
+// (VerifGroupForkSwitch) on the common ancestor d below the head with a branch of one or
+// two groups taken from the add alphabet (built for the chain as it is after the unwind).
+// Model: remove down to the ancestor, then add each branch group with the accept / refuse
+// rule of AddGroup (decision taken from the implementation; a refused group stops the switch).
+func isSwitch(op string) bool { return strings.HasPrefix(op, "sw") && strings.Contains(op, ":") }
+
+func parseSwitch(op string) (d int, branch []string) {
+	i := strings.IndexByte(op, ':')
+	d = int(op[2] - '0')
+	return d, strings.Split(op[i+1:], "+")
+}
+
+// plainSwitch: every branch group is a plain valid addition.
+func plainSwitch(op string) bool {
+	if op == "sw1:add0" || op == "sw1:add0+add1" {
+		return false // explored close to the post-boot state only (budget)
+	}
+	_, br := parseSwitch(op)
+	for _, b := range br {
+		if b != opAdd0 && b != opAdd1 {
+			return false
+		}
+	}
+	return true
+}
+
+func switchUsesOdd(op string) bool {
+	_, br := parseSwitch(op)
+	for _, b := range br {
+		if isOddId(b) {
+			return true
+		}
+	}
+	return false
+}
+
+// shallowOnly: ops that are applied only in states close to the post-boot state.
+func shallowOnly(op string) bool {
+	return isOddId(op) || (isSwitch(op) && !plainSwitch(op))
+}
+
+func applySwitch(m *refGroups, op string) stepResult {
+	r := stepResult{Op: op, OddListed: m.oddListed}
+	d, kinds := parseSwitch(op)
+	anc := m.list[len(m.list)-1-d]
+	// plan the branch on a copy of the model as it will be after the unwind
+	plan := &refGroups{list: append([]*types.Group{}, m.list[:len(m.list)-d]...)}
+	var branch, mcopies []*types.Group
+	for _, k := range kinds {
+		_, variant := splitVariant(k)
+		g := plan.build(k)
+		carryFields(g, variant, uint64(len(plan.list)))
+		g.GroupHeight = uint64(len(plan.list)) // the fork files its groups by this field
+		mg := plan.build(k)
+		mg.GroupHeight = uint64(len(plan.list))
+		branch, mcopies = append(branch, g), append(mcopies, mg)
+		plan.list = append(plan.list, mg)
+	}
+	var ok bool
+	accepted := 0
+	keep := len(m.list) - d // length of the list after the unwind
+	old := m.list
+	p, v, site := fw.Try(func() {
+		stored := core.GetGroupChain().GetGroupById(anc.Id)
+		if stored == nil {
+			stored = cloneGroup(anc)
+		}
+		ok = core.VerifGroupForkSwitch(stored, branch)
+		// how far the switch got: the last group is the ancestor or one of the branch groups
+		if lg := core.GetGroupChain().LastGroup(); lg != nil {
+			for i, g := range branch {
+				if bytes.Equal(lg.Id, g.Id) && (ok || i < len(branch)-1) {
+					accepted = i + 1
+				}
+			}
+		}
+		if ok {
+			accepted = len(branch)
+		}
+		// a switch that reports failure and leaves the head where it was did nothing (e.g. the
+		// fork object could not find its ancestor again): the statement does not demand the
+		// unwind, only a consistent chain
+		if lg := core.GetGroupChain().LastGroup(); !ok && accepted == 0 && lg != nil {
+			// a failed switch may also stop the unwind above the ancestor (the fork object did
+			// not find its ancestor again): any prefix of the old list down to the ancestor is
+			// a consistent chain; the statement does not demand the complete unwind
+			for n := len(old); n > keep; n-- {
+				if bytes.Equal(lg.Id, old[n-1].Id) {
+					keep = n
+					break
+				}
+			}
+		}
+	})
+	if p {
+		r.Panic, r.Err = site, fmt.Sprint(v)
+		return r
+	}
+	r.Accepted = ok
+	if keep != len(old)-d {
+		r.Err = fmt.Sprintf("switch failed and unwound %d of %d groups", len(old)-keep, d)
+	}
+	m.shrink(len(old) - keep)
+	for i := 0; i < accepted; i++ {
+		m.list = append(m.list, mcopies[i])
+		switch k, _ := splitVariant(kinds[i]); {
+		case k == opWrongPre:
+			r.Forbidden = "add-accepted-with-wrong-pregroup"
+		case k == opDup || k == opIdGen:
+			r.Forbidden = "add-accepted-with-listed-id"
+		}
+		if isOddId(kinds[i]) {
+			m.oddUsed, m.oddListed, m.oddAt = true, kinds[i], len(m.list)-1
+			r.OddListed = kinds[i]
+		}
+	}
+	if !ok && r.Err == "" {
+		r.Err = fmt.Sprintf("switch stopped after %d of %d branch groups", accepted, len(branch))
+	}
+	return r
+}
 
 // Field dimension of add-group: "<valid add>.<variant>" is the same group as the valid add
 // (same id, links, header hash) but the incoming record carries values in fields that
@@ -130,6 +259,9 @@ func opIndex(name string) int {
 }
 
 func opClass(op string, accepted bool) string {
+	if isSwitch(op) {
+		return "fork-switch-" + op[strings.IndexByte(op, ':')+1:]
+	}
 	op, _ = splitVariant(op)
 	switch op {
 	case opAdd0, opAdd1:
@@ -171,6 +303,10 @@ type refGroups struct {
 func (m *refGroups) last() *types.Group { return m.list[len(m.list)-1] }
 
 func (m *refGroups) enabled(op string) bool {
+	if isSwitch(op) {
+		d, _ := parseSwitch(op)
+		return len(m.list) >= d+1 && !(switchUsesOdd(op) && m.oddUsed)
+	}
 	switch op {
 	case opRm:
 		return len(m.list) >= 2 // the fork switch never removes the genesis group
@@ -292,6 +428,9 @@ type stepResult struct {
 // say which additions must be refused) except that accepting a wrong predecessor or a
 // listed id is reported: no list can satisfy the statement afterwards.
 func applyOp(m *refGroups, op string) stepResult {
+	if isSwitch(op) {
+		return applySwitch(m, op)
+	}
 	r := stepResult{Op: op, OddListed: m.oddListed}
 	kind := op
 	_, variant := splitVariant(op)
@@ -899,7 +1038,7 @@ func findingsOfStep(hist []string, r *histResult, i int, before uint32) []findin
 	// consequences of a listed ID-dimension group carry its kind (the add itself has it in
 	// its op class)
 	tag := ""
-	if s.OddListed != "" && !isOddId(s.Op) {
+	if s.OddListed != "" && !isOddId(s.Op) && !(isSwitch(s.Op) && strings.Contains(s.Op, s.OddListed)) {
 		tag = ":with-" + s.OddListed + "-listed"
 	}
 	if s.Panic != "" {
